@@ -287,6 +287,8 @@ class Shadow:
                 cls, meth = name.split(".", 1)
                 setattr(ns[cls], meth, st)
             else:
+                if name in ns:
+                    ns["_orig_" + name] = ns[name]     # the real (rewritten) function stays reachable for the driver
                 ns[name] = st
         return ns
 
